@@ -125,3 +125,32 @@ class Verdicts:
 def machinery_failure(prop, msg):
     print("MACHINERY-FAILURE property=%s %s" % (prop, msg))
     sys.exit(2)
+
+
+def spec_hash(*modules):
+    """hash of the named spec modules' sources (cache key for generator output, which depends on
+    the specification only, never on /repo)"""
+    h = hashlib.sha1()
+    sd = os.path.join(ROOT, "spec")
+    for m in sorted(os.listdir(sd)):
+        if m.endswith(".tla") and (not modules or m[:-4] in modules):
+            h.update(open(os.path.join(sd, m), "rb").read())
+    return h.hexdigest()[:16]
+
+
+def cached(key, fn):
+    """memoise generator output (JSON-serialisable) under /verif/build/cache"""
+    d = os.path.join(ROOT, "build", "cache")
+    os.makedirs(d, exist_ok=True)
+    p = os.path.join(d, hashlib.sha1(key.encode()).hexdigest()[:20] + ".json")
+    if os.path.exists(p) and not os.environ.get("VERIF_NOCACHE"):
+        try:
+            return json.load(open(p))
+        except Exception:
+            pass
+    val = fn()
+    tmp = p + ".%d.tmp" % os.getpid()
+    with open(tmp, "w") as f:
+        json.dump(val, f)
+    os.replace(tmp, p)
+    return val
